@@ -3,6 +3,8 @@ import GomlVerif.Model.Resolve
 import GomlVerif.Lemmas.LowerStack
 import GomlVerif.Lemmas.LowerOk
 import GomlVerif.Lemmas.LowerOkFn
+import GomlVerif.Lemmas.LowerOkFile
+import GomlVerif.Lemmas.LowerFuelFile
 /-!
 # CST→AST lowering — properties of `Model/Lower.lean`
 
@@ -54,12 +56,11 @@ theorem lower_pat_ty_leave_stack (C : List String) (n : Nat) (node : Cst) (s : S
     (lowerPat C n node s).2.locals = s.locals ∧ (lowerTy n node s).2.locals = s.locals :=
   ⟨(bal_lowerPat C n node s.locals s rfl).1, (bal_lowerTy n node s.locals s rfl).1⟩
 
-/-- **Totality, the panic side** (`_partial`: what is missing is the proof that `fuelFor` always suffices — the
-driver reports `starved` and the tie has never seen it). For EVERY tree (any kinds, any children missing or
+/-- **Totality, the panic side, function by function** (the whole-file statement with the fuel is `lower_total`). For EVERY tree (any kinds, any children missing or
 repeated), any fuel and any state, the lowering model never reaches a Rust panic: the only candidate in
 `lower.rs`, `last_ident().expect("paths must contain at least one segment")`, is unreachable because
 `lower_path` answers a diagnostic instead of an empty path.  A missing child is a diagnostic or a silent `None`. -/
-theorem lower_total_partial (C : List String) (n : Nat) (node : Cst) (s : St) :
+theorem lower_no_panic (C : List String) (n : Nat) (node : Cst) (s : St) :
     (∀ tr, (lowerExprW C n node tr s).2.stuck = s.stuck) ∧
     (lowerBlock C n node s).2.stuck = s.stuck ∧
     (lowerArm C n node s).2.stuck = s.stuck ∧
@@ -127,6 +128,52 @@ theorem lower_ctor_iff_fn (C D : List String) (n : Nat) (node : Cst) (s : St) (f
   have hk := hb.2.2 f h
   simp only [List.nil_append] at hk
   exact ⟨hk.1, conOk_expr D _ _ hk.1, hb.1⟩
+
+/-- **`lower_fuel_suffices`.** The fuel `lowerFile` hands out (`2·size + 10`) is never exhausted: every recursive call of
+every function of the model goes to a strict sub-tree with one unit less (`Lemmas/LowerFuel*.lean`: `child` / `childrenK`
+select strictly smaller trees; the statement loop of a block needs one unit per statement). -/
+theorem lower_fuel_suffices (file : Cst) : (lowerFile file).st.starved = false := lowerFile_not_starved file
+
+/-- the same for one expression / block with any fuel `≥ 2·size` -/
+theorem lower_fuel_suffices_expr (C : List String) (n : Nat) (node : Cst) (tr : List Trailing) (s : St)
+    (hn : 2 * node.size ≤ n) (hs : s.starved = false) :
+    (lowerExprW C n node tr s).2.starved = false ∧ (lowerBlock C n node s).2.starved = false :=
+  ⟨((coreNS C n).exprW node tr hn).run s hs, ((coreNS C n).block node hn).run s hs⟩
+
+/-- **`lower_total`.** For EVERY tree the tree builder can hand to `lower` (any kinds, children missing, repeated or
+misplaced): the model finishes within its fuel, never reaches a Rust panic, leaves the binder stack empty, and answers an
+`ast::File` exactly when it pushed no diagnostic — a missing child is a diagnostic or a silent `None`, never a panic. -/
+theorem lower_total (file : Cst) :
+    (lowerFile file).st.starved = false ∧ (lowerFile file).st.stuck = false ∧ (lowerFile file).st.locals = [] ∧
+    ((lowerFile file).ast.isSome ↔ (lowerFile file).st.diags = []) := by
+  have h := ok_lowerFile file (fuelFor file)
+  refine ⟨lowerFile_not_starved file, h.2.1, h.1, ?_⟩
+  unfold lowerFile lowerFileWith
+  dsimp only
+  split <;> simp_all
+
+/-- **`lower_ctor_iff_file`.** Every function body of a lowered file — top-level functions and the methods of every `impl`
+block — is classified under exactly its parameter names against the FILE's constructor set: `Resolve.conOkExpr` holds of it.
+The hypothesis of `resolve_refines_spec` / `resolveFn_refines_spec` is discharged for whole files. -/
+theorem lower_ctor_iff_file (file : Cst) (D : List String) (f : FnDef)
+    (hf : Item.fn f ∈ (lowerFile file).built.items ∨
+          ∃ d, Item.impl d ∈ (lowerFile file).built.items ∧ f ∈ d.methods) :
+    classOkExpr (collectConstructorNames file) (f.params.map (·.1)) (scopeOf f.body) = true ∧
+    Resolve.conOkExpr ⟨collectConstructorNames file, D⟩ (f.params.map (·.1)) (scopeOf f.body) = true := by
+  have h := (ok_lowerFile file (fuelFor file)).2.2
+  have hk : FnOk (collectConstructorNames file) f := by
+    rcases hf with hf | ⟨d, hd, hm⟩
+    · exact h _ hf
+    · exact h _ hd f hm
+  exact ⟨hk, conOk_expr D _ _ hk⟩
+
+/-- when lowering succeeds the `ast::File` it answers is the file that was built -/
+theorem lower_ast_eq_built (file : Cst) (a : File) (h : (lowerFile file).ast = some a) : a = (lowerFile file).built := by
+  unfold lowerFile lowerFileWith at h ⊢
+  dsimp only at h ⊢
+  split at h
+  · cases h; rfl
+  · cases h
 
 /-! ## non-vacuity: concrete trees -/
 
